@@ -173,6 +173,17 @@ def run(ctx):
         t = X.gen_plain(rng, rng.choice([2, 3, 4]), "d")
         cases.append({"tree": t, "mode": rng.choice(["n0", "wrap"]), "ops": gen_history(rng, t, rng.randrange(1, 9))})
     ctx.evaluate("history", cases, check_history, nontrivial=lambda c: len(c["ops"]) > 1)
+    # exhaustive small scope: every small tree, every position, delete / delete(recursively) / pop
+    nmax = 4 if ctx.tier == "thorough" else 3
+    ex = []
+    for t in X.small_trees(nmax):
+        for p, _ in X.positions(t):
+            if p:
+                xp = X.render_rel(t, p)
+                for op in ({"op": "del", "rec": False}, {"op": "del", "rec": True}, {"op": "pop", "rec": True, "d": None}):
+                    ex.append({"tree": t, "mode": "n0", "ops": [dict(op, pos=list(p), xp=xp)]})
+    ctx.evaluate("history/exhaustive", ex, check_history)
+    ctx.extra["exhaustive_subspace"] = "all dict-rooted trees with <= %d nodes below the root, every position, delete / delete(recursively) / pop(recursively)" % nmax
     # B: every delete/pop step, model vs implementation from the implementation's state
     dsteps, psteps = [], []
     for c in cases:
